@@ -163,7 +163,7 @@ PROPS = {
                         'promptness ("returns promptly") is measured by the correspondence run (5 s budget per predicted return), not proved'],
     },
     'C10': {
-        'lean_modules': ['C10'],
+        'lean_modules': ['C10', 'C10f'],
         'engines': [('racebase', 6, 30), ('racereconn', 6, 30)],
         'race': [('racebase', 6, 20), ('racereconn', 8, 24)],
         'race_rounds': 1, 'race_rounds_thorough': 6,
